@@ -62,12 +62,15 @@ func (its *list) ResetSnapshot() {
 	its.Snapshot = newListSnapshot(its.BaseDatatype)
 }
 
-func (its *list) ToJSON() interface{} {
-	return struct {
-		List []interface{}
-	}{
-		List: its.snapshot().ToJSON().([]interface{}),
-	}
+func (its *list) ToJSON() (ret interface{}) {
+	its.DoRead(its.TxCtx, func() {
+		ret = struct {
+			List []interface{}
+		}{
+			List: its.snapshot().ToJSON().([]interface{}),
+		}
+	})
+	return
 }
 
 func (its *list) ExecuteLocal(op interface{}) (interface{}, errors.OrdaError) {
@@ -117,8 +120,9 @@ func (its *list) ExecuteRemote(op interface{}) (interface{}, errors.OrdaError) {
 	return nil, errors.DatatypeIllegalOperation.New(its.L(), its.TypeOf.String(), op)
 }
 
-func (its *list) Size() int {
-	return its.snapshot().Size()
+func (its *list) Size() (ret int) {
+	its.DoRead(its.TxCtx, func() { ret = its.snapshot().Size() })
+	return
 }
 
 func (its *list) Insert(pos int, value interface{}) (interface{}, errors.OrdaError) {
@@ -183,18 +187,22 @@ func (its *list) DeleteMany(pos int, numOfNode int) ([]interface{}, errors.OrdaE
 	return types.ToInterfaceArray(ret.([]types.JSONValue)), nil
 }
 
-func (its *list) Get(pos int) (interface{}, errors.OrdaError) {
-	if err := its.snapshot().validateGetPosition(pos); err != nil {
-		return nil, err
-	}
-	return its.snapshot().findValue(pos), nil
+func (its *list) Get(pos int) (ret interface{}, err errors.OrdaError) {
+	its.DoRead(its.TxCtx, func() {
+		if err = its.snapshot().validateGetPosition(pos); err == nil {
+			ret = its.snapshot().findValue(pos)
+		}
+	})
+	return
 }
 
-func (its *list) GetMany(pos int, numOfNodes int) ([]interface{}, errors.OrdaError) {
-	if err := its.snapshot().validateGetRange(pos, numOfNodes); err != nil {
-		return nil, err
-	}
-	return its.snapshot().findManyValues(pos, numOfNodes), nil
+func (its *list) GetMany(pos int, numOfNodes int) (ret []interface{}, err errors.OrdaError) {
+	its.DoRead(its.TxCtx, func() {
+		if err = its.snapshot().validateGetRange(pos, numOfNodes); err == nil {
+			ret = its.snapshot().findManyValues(pos, numOfNodes)
+		}
+	})
+	return
 }
 
 // ////////////////////////////////////////////////////////////////
